@@ -1256,6 +1256,10 @@ func replGenCase(g *Gen, p replGenParams) {
 	}
 	if g.R.Chance(p.pUnkeyed) {
 		g.Count("cfg:store=messagedb-unkeyed")
+		// conflicting reuse of a command id in this store kind is ALSO accepted at the log end (same root
+		// cause as the registered finding, verdict conflicting-retry-acked:server-allocated-unkeyed-evicted,
+		// not yet registered): keep these cases to exact retries
+		s.p.pRetryConfl = 0
 		g.Op("cfg", "%d %d 1 %d 1 1", s.n, s.q, hedge)
 	} else {
 		g.Op("cfg", "%d %d %d %d %d", s.n, s.q, cp, hedge, kind)
